@@ -19,7 +19,7 @@ import (
 )
 
 func parseBig(s string, base int) (*big.Int, bool) { return new(big.Int).SetString(s, base) }
-func sortStrings(s []string)                        { sort.Strings(s) }
+func sortStrings(s []string)                       { sort.Strings(s) }
 
 // ---------------------------------------------------------------------
 // case list
